@@ -70,6 +70,16 @@ def run(v):
                         "c07_mc_name_dev", workers=2, timeout=600, coverage=False)
         if rx.violated != inv:
             raise common.ToolError(f"MC_FileDictName: deviation {dev} is not refuted (vacuous invariant)")
+    # where the user dictionary lives: announced and silent moves of the setting, pulls, adds (bound by the Moved / Stray events)
+    rp = common.tlc(os.path.join(SPEC, "mc", "MC_DictPath.tla"), os.path.join(SPEC, "mc", "MC_DictPath_quick.cfg"), "c07_mc_path",
+                    workers=2, timeout=600, coverage=False)
+    if rp.violated:
+        v.failure({"kind": "model", "invariant": rp.violated}, {"tlc_output": rp.output[-3000:]})
+    v.add_mc("MC_DictPath", rp, "two locations, silent and announced moves of the setting, pulls and adds: SavedWhereConfigured")
+    rpc = common.tlc(os.path.join(SPEC, "mc", "MC_DictPath.tla"), os.path.join(SPEC, "mc", "MC_DictPath_dev_cache.cfg"), "c07_mc_path_dev",
+                     workers=2, timeout=600, coverage=False)
+    if rpc.violated != "SavedWhereConfigured":
+        raise common.ToolError("MC_DictPath: the path-cache deviation is not refuted (vacuous invariant)")
     r2 = common.tlc(os.path.join(SPEC, "mc", "MC_JsLinter.tla"), os.path.join(SPEC, "mc", "MC_JsLinter_quick.cfg"),
                     "c07_mc_js", workers=8, timeout=1800, coverage=False)
     if r2.violated:
